@@ -296,6 +296,23 @@ fn stuck_class(d: &Driver) -> &'static str {
         return "several-leaders";
     }
     let l = leaders[0];
+    // without pre-vote and check-quorum a node at a higher term ignores the leader's traffic
+    // silently, so the leader never learns that term: a member whose term was raised by somebody
+    // the configuration no longer lists (a removed node that never learnt of its removal keeps
+    // campaigning) is cut off from the leader for good
+    if !d.knobs.pre_vote && !d.knobs.check_quorum {
+        let lterm = d.sim.nodes[l].raw.as_ref().unwrap().raft.term;
+        let mem = d.sim.nodes[l].conf.members();
+        let member_above = run
+            .iter()
+            .any(|&v| mem.contains(&d.sim.nodes[v].id) && d.sim.nodes[v].raw.as_ref().unwrap().raft.term > lterm);
+        let outsider_above = run
+            .iter()
+            .any(|&v| !mem.contains(&d.sim.nodes[v].id) && d.sim.nodes[v].raw.as_ref().unwrap().raft.term > lterm);
+        if member_above && outsider_above {
+            return "member-at-higher-term-ignores-leader/term-raised-by-removed-node/no-prevote-no-checkquorum";
+        }
+    }
     let lcommit = d.sim.nodes[l].raw.as_ref().unwrap().raft.raft_log.committed;
     let mut waiting = false;
     for &v in &run {
